@@ -39,10 +39,13 @@ def fingerprint (chip op pattern : String) : Option String :=
   | "bls", "mul_const:0x10000000000000000", "w" => some "sel=5540,0,0,5316,0,0,0,0,1,0,1,64,64,64,0 adv=33281"
   | "bls", "mul_const:0x100000000000000000000000000000000", "w" => some "sel=16505,0,0,15587,0,0,0,0,2,5,2,240,136,188,33 adv=100093"
   | "bls", "mul_const:0x100000000000000000000000000000000000000000000003039", "w" => some "sel=24263,0,0,22949,0,0,0,0,2,5,2,348,208,278,51 adv=147091"
+  | "bls", "mul_const:0x100000000000000000000000000000001", "w" => some "sel=16505,0,0,15587,0,0,0,0,2,5,2,240,136,188,33 adv=100093"
+  | "bls", "mul_const:0x10000000000000001", "w" => some "sel=5623,0,0,5397,0,0,0,0,1,0,1,66,64,65,0 adv=33800"
   | "bls", "mul_const:0x10000000000000005", "w" => some "sel=5706,0,0,5478,0,0,0,0,1,0,1,68,64,66,0 adv=34319"
   | "bls", "mul_const:0x2", "w" => some "sel=185,0,0,150,0,0,0,0,1,0,1,1,1,1,0 adv=1025"
   | "bls", "mul_const:0x73eda753299d7d483339d80809a1d80553bda402fffe5bfeffffffff00000000", "w" => some "sel=29866,0,0,28266,0,0,0,0,2,5,2,426,260,343,64 adv=181036"
   | "bls", "mul_const:0x8", "w" => some "sel=355,0,0,314,0,0,0,0,1,0,1,3,3,3,0 adv=2049"
+  | "bls", "mul_const:0x80000000000000000000000000000000", "w" => some "sel=10895,0,0,10482,0,0,0,0,1,0,1,127,127,127,0 adv=65537"
   | "bls", "mul_const:0x80000000000000000000000000000001", "w" => some "sel=10978,0,0,10563,0,0,0,0,1,0,1,129,127,128,0 adv=66056"
   | "bls", "mul_const:0xc1258acd66282b7ccc627f7f65e27faac425bfd0001a40100000000fffffffe", "w" => some "sel=29435,0,0,27857,0,0,0,0,2,5,2,420,256,338,63 adv=178426"
   | "bls", "mul_const:0xffffffffffffffff", "w" => some "sel=10684,0,0,10337,0,0,0,0,1,0,1,189,63,126,0 adv=65466"
@@ -58,6 +61,7 @@ def fingerprint (chip op pattern : String) : Option String :=
   | "jub", "coords", "w" => some "sel=0,0,0,0,6,8,2 adv=74"
   | "jub", "double", "w" => some "sel=0,0,0,0,3,5,1 adv=45"
   | "jub", "is_equal", "ww" => some "sel=5,0,0,0,6,8,2 adv=94"
+  | "jub", "map_to_curve", "w" => some "sel=102,0,0,18,3,4,1 adv=392 copies=198"
   | "jub", "msm", "w" => some "sel=0,0,0,63,254,256,1 adv=2556"
   | "jub", "msm", "ww" => some "sel=0,0,0,126,508,513,2 adv=5120"
   | "jub", "msm", "wwf" => some "sel=0,0,0,189,759,766,2 adv=7647"
@@ -67,10 +71,13 @@ def fingerprint (chip op pattern : String) : Option String :=
   | "jub", "mul_const:0x10000000000000000", "w" => some "sel=0,0,0,0,67,69,1 adv=621"
   | "jub", "mul_const:0x100000000000000000000000000000000", "w" => some "sel=0,0,0,0,131,133,1 adv=1197"
   | "jub", "mul_const:0x100000000000000000000000000000000000000000000003039", "w" => some "sel=0,0,0,0,203,205,1 adv=1845"
+  | "jub", "mul_const:0x100000000000000000000000000000001", "w" => some "sel=0,0,0,0,131,133,1 adv=1197"
+  | "jub", "mul_const:0x10000000000000001", "w" => some "sel=0,0,0,0,67,69,1 adv=621"
   | "jub", "mul_const:0x10000000000000005", "w" => some "sel=0,0,0,0,67,69,1 adv=621"
   | "jub", "mul_const:0x1824b159acc5056f998c4fefecbc4ff5997df6c3337ef7d2f68f1a12908d348", "w" => some "sel=0,0,0,0,251,253,1 adv=2277"
   | "jub", "mul_const:0x2", "w" => some "sel=0,0,0,0,4,6,1 adv=54"
   | "jub", "mul_const:0x8", "w" => some "sel=0,0,0,0,6,8,1 adv=72"
+  | "jub", "mul_const:0x80000000000000000000000000000000", "w" => some "sel=0,0,0,0,130,132,1 adv=1188"
   | "jub", "mul_const:0x80000000000000000000000000000001", "w" => some "sel=0,0,0,0,130,132,1 adv=1188"
   | "jub", "mul_const:0xe7db4ea6533afa906673b0101343b00a6682093ccc81082d0970e5ed6f72cb6", "w" => some "sel=0,0,0,0,254,256,1 adv=2304"
   | "jub", "mul_const:0xffffffffffffffff", "w" => some "sel=0,0,0,0,66,68,1 adv=612"
@@ -99,10 +106,13 @@ def fingerprint (chip op pattern : String) : Option String :=
   | "secp", "mul_const:0x10000000000000000", "w" => some "sel=3130,0,0,2918,0,0,0,0,0,0,1,0,1,64,64,64,0 adv=18727"
   | "secp", "mul_const:0x100000000000000000000000000000000", "w" => some "sel=9386,0,0,8590,0,0,0,0,0,0,2,5,2,240,136,188,33 adv=56637"
   | "secp", "mul_const:0x100000000000000000000000000000000000000000000003039", "w" => some "sel=13796,0,0,12640,0,0,0,0,0,0,2,5,2,348,208,278,51 adv=83205"
+  | "secp", "mul_const:0x100000000000000000000000000000001", "w" => some "sel=9386,0,0,8590,0,0,0,0,0,0,2,5,2,240,136,188,33 adv=56637"
+  | "secp", "mul_const:0x10000000000000001", "w" => some "sel=3177,0,0,2963,0,0,0,0,0,0,1,0,1,66,64,65,0 adv=19021"
   | "secp", "mul_const:0x10000000000000005", "w" => some "sel=3224,0,0,3008,0,0,0,0,0,0,1,0,1,68,64,66,0 adv=19315"
   | "secp", "mul_const:0x14551231950b75fc4402da1732fc9bebe", "w" => some "sel=9386,0,0,8590,0,0,0,0,0,0,2,5,2,240,136,188,33 adv=56637"
   | "secp", "mul_const:0x2", "w" => some "sel=106,0,0,83,0,0,0,0,0,0,1,0,1,1,1,1,0 adv=583"
   | "secp", "mul_const:0x8", "w" => some "sel=202,0,0,173,0,0,0,0,0,0,1,0,1,3,3,3,0 adv=1159"
+  | "secp", "mul_const:0x80000000000000000000000000000000", "w" => some "sel=6154,0,0,5753,0,0,0,0,0,0,1,0,1,127,127,127,0 adv=36871"
   | "secp", "mul_const:0x80000000000000000000000000000001", "w" => some "sel=6201,0,0,5798,0,0,0,0,0,0,1,0,1,129,127,128,0 adv=37165"
   | "secp", "mul_const:0xffffffffffffffff", "w" => some "sel=6043,0,0,5708,0,0,0,0,0,0,1,0,1,189,63,126,0 adv=36961"
   | "secp", "mul_const:0xfffffffffffffffffffffffffffffffebaaedce6af48a03bbfd25e8cd0364140", "w" => some "sel=16981,0,0,15565,0,0,0,0,0,0,2,5,2,426,260,343,64 adv=102396"
